@@ -1,5 +1,6 @@
 (* C04 - byte stream decodes into key events. Statements only. *)
-From EC Require Import Base Model.Utf8 Model.Input Spec.Utf8Spec Spec.KeyUnits Proofs.InputProofs.
+From EC Require Import Base Model.Utf8 Model.Input Model.Sink Model.Writer Model.Cli Spec.Utf8Spec Spec.KeyUnits Proofs.InputProofs
+  Proofs.SafetyProofs Proofs.DecoderProofs.
 
 (* every stream that is a concatenation of well-formed key units, segmented greedily, decodes into
    exactly the events of those units, from any decoder state that is not inside a CSI sequence *)
@@ -35,3 +36,29 @@ Theorem C04_decode_oracle : forall us, forallb wf_unitb us = true -> greedyb 0 u
   snd (runa ig0 (flat_map bytes_of us)) = flat_map events_of us.
 Proof. exact decode_units_b. Qed.
 Print Assumptions C04_decode_oracle.
+
+(* "depends only on the byte sequence", for the decoder as the Cli keeps it between calls: after ANY sequence of API calls (bytes,
+   Cli::write, set_prompt in any order), under EVERY sink behaviour okf (any call may fail, once or for good), with any command set and
+   handler, and whatever the calls returned, the decoder inside the Cli is in the state its own run over the bytes fed so far ends in -
+   so the second byte of a CR LF pair is swallowed also when the call for the first byte failed *)
+Theorem C04_cli_decoder : forall okf feats cs handler calls s,
+  ig (fst (api_run okf feats cs handler s calls)) = fst (runa (ig s) (fed_bytes calls)).
+Proof. exact cli_decoder. Qed.
+Print Assumptions C04_cli_decoder.
+
+(* one call: the byte moves the decoder exactly as `accept` says, whatever the call returns *)
+Theorem C04_cli_byte : forall okf feats cs handler b s r s',
+  api_process_byte okf feats cs handler b s = (r, s') -> ig s' = fst (accept (ig s) b).
+Proof. exact process_byte_decoder. Qed.
+Print Assumptions C04_cli_byte.
+
+(* non-vacuity: `a` CR with the sink failing from the first call of the Enter on, then LF and `b` with the sink still failing: the decoder
+   has paired CR LF (one Enter) although every call returned Err *)
+Example C04_cli_nonvacuous :
+  let feats := {| f_hist := true; f_ac := true; f_help := true |} in
+  let h := fun (_ : nat) (_ : list N) (_ : list (list N)) => @nil hop in
+  let okf := fun n : nat => Nat.ltb n 4 in
+  let s0 := snd (api_build (fun _ => true) (cli_init 16 16 [36; 32])) in
+  let '(s, rs) := api_run okf feats raw_cmdset h s0 [AByte 97; AByte 13; AWrite [HWrite [120]]; AByte 10; AByte 98] in
+  ig s = fst (runa ig0 [97; 13; 10; 98]) /\ snd (runa ig0 [97; 13; 10; 98]) = [Chr [97]; Ctl Enter; Chr [98]] /\ In Err rs.
+Proof. vm_compute. repeat split; try reflexivity. right. left. reflexivity. Qed.
